@@ -547,6 +547,22 @@ class LibMixin:
             return NONE
         raise VCError("append of %r to %r at line %d" % (v, o, node.lineno))
 
+    def m_extend(self, recv, node, st):
+        v = self.eval(node.args[0], st)
+        o = st.mut(recv)
+        if isinstance(o, HListTup) and isinstance(v, Ref) and isinstance(st.obj(v), HListTup):
+            w = st.obj(v)
+            k = z3.Int("k!ext")
+            o.cols = [z3.Lambda([k], ite(k < o.n, z3.Select(c, k), (z3.ToReal(z3.Select(wc, k - o.n)) if (kd == "real" and wk == "int") else z3.Select(wc, k - o.n))))
+                      for c, wc, kd, wk in zip(o.cols, w.cols, o.kinds, w.kinds)]
+            o.n = z3.simplify(o.n + w.n)
+            st.assume(w.n >= 0)
+            return NONE
+        if isinstance(o, HArr) and o.is_list and self.is_arr1(st, v):
+            self.list_extend(st, recv, v, node)
+            return NONE
+        raise VCError("extend on %r with %r at line %d" % (o, v, node.lineno))
+
     def m_pop(self, recv, node, st):
         o = st.mut(recv)
         if isinstance(o, HDict):
